@@ -651,3 +651,33 @@ Theorem C05_dedup_default_eval_asymmetric_values :
   default_eval SearchDedupEx2.px = -1790 /\ is_over SearchDedupEx2.px = false /\ move SearchDedupEx2.px = 15.
 Proof. exact SearchDedupEx2.px_values. Qed.
 Print Assumptions C05_dedup_default_eval_asymmetric_values.
+
+
+(* ---- the soundness half of the table clause for the dedup-capable model (SearchDedupSound.v) ---- *)
+Require SearchDedupSound SearchDedupSoundEx.
+
+(* the forced-result classification is invariant under the eight rebuilt images *)
+Theorem C05_dedup_cls_image : forall n p k, (k < 8)%nat -> G p ->
+  (W gen_basis n (Import5.imgk p k) <-> W gen_basis n p) /\ (L gen_basis n (Import5.imgk p k) <-> L gen_basis n p).
+Proof. exact SearchDedupSound.cls_image. Qed.
+Print Assumptions C05_dedup_cls_image.
+
+(* C05_table_sound_any_config for the model with Cfg.DedupSymmetry: every configuration without null move (slide reduction, multi-cut, any
+   table, sort on/off, the option on or off per call), either built-in evaluator, any cancellation point, any history of such calls
+   (engine_sd): a reported value beyond the threshold is a real forced result.  touch_set_d U = touch_set U /\ dedup_nocollision on U;
+   ask_sd = ask_s /\ G (a position of a game under the default configuration). *)
+Theorem C05_dedup_table_sound_any_config : forall U, SearchDedupSound.touch_set_d U ->
+  forall s cfg k dedup p sk pv v d acc c, SearchDedupSound.engine_sd U s -> c_nonull cfg = true -> builtin_eval cfg -> SearchDedupSound.ask_sd U cfg p ->
+  analyze_gen_d gen_basis cfg k dedup s p = (sk, (pv, v, d, acc, c)) -> sound_verdict gen_basis p v.
+Proof. exact SearchDedupSound.analyze_d_sound_any_inst. Qed.
+Print Assumptions C05_dedup_table_sound_any_config.
+
+(* non-vacuity: empty 3x3 board, depth 2, 64-entry table, slide reduction and multi-cut ON, no null move, the option ON; a cancelled call,
+   then an uninterrupted one *)
+Theorem C05_dedup_table_sound_example :
+  c_nonull SearchDedupSoundEx.cfgRd = true /\ c_noreduce SearchDedupSoundEx.cfgRd = false /\ c_multicut SearchDedupSoundEx.cfgRd = true /\
+  SearchDedupSound.touch_set_d Udd /\ SearchDedupSound.ask_sd Udd SearchDedupSoundEx.cfgRd start3 /\
+  r_canceled (snd SearchDedupSoundEx.runS1) = true /\ r_depth (snd SearchDedupSoundEx.runS2) = 2 /\
+  sound_verdict gen_basis start3 (r_value (snd SearchDedupSoundEx.runS2)).
+Proof. exact SearchDedupSoundEx.dedup_sound_applies. Qed.
+Print Assumptions C05_dedup_table_sound_example.
